@@ -99,7 +99,7 @@ class OpenFOAM(object):
         # Write the boundary file
         with open(join(self.target, 'boundary'), 'w') as f:
             f.write(self._header('polyBoundaryMesh', 'boundary'))
-            f.write(str(len(set(faces['name'])) - 1) + '\n(\n')
+            f.write(str(len(set(faces['name']) - {None})) + '\n(\n')
             start = 0
             for name, it in groupby(faces, key=itemgetter('name')):
                 nfaces = len(list(it))
